@@ -47,7 +47,7 @@ CHECKS = {
         level_note="'grep semantics' = the pattern is matched against the line without its terminator; '' with --invert is outside the domain. The end-to-end path (flags, serialisation, server decoding) is covered by C12.",
         tests=[
             dict(name="TestC03Exhaustive", quick=dict(timeout=600), thorough=dict(timeout=3000)),
-            dict(name="TestC03Random", quick=dict(checks=20000, timeout=600), thorough=dict(checks=150000, shards=15, timeout=3000)),
+            dict(name="TestC03Random", quick=dict(checks=20000, timeout=600), thorough=dict(checks=1000000, shards=15, timeout=3400)),
         ]),
     "C01": dict(
         pkg="c01", level="exploration", bins=["dcat"], helpers=["vserver"],
@@ -56,10 +56,10 @@ CHECKS = {
         level_note="Trusted: the harness' SplitLong model (unit-tested), gzip/zstd compressors used to prepare inputs. vserver = cmd/dserver without the root check.",
         tests=[
             dict(name="TestC01Witness", quick=dict(timeout=120), thorough=dict(timeout=120)),
-            dict(name="TestC01Serverless", quick=dict(checks=700, timeout=600), thorough=dict(checks=4000, shards=8, timeout=3000)),
-            dict(name="TestC01ServerlessFull", quick=dict(checks=300, timeout=600), thorough=dict(checks=2000, shards=4, timeout=3000)),
-            dict(name="TestC01SSH", quick=dict(checks=200, timeout=600), thorough=dict(checks=1500, shards=4, timeout=3000)),
-            dict(name="TestC01SSHFull", quick=dict(checks=100, timeout=600), thorough=dict(checks=1000, shards=2, timeout=3000)),
+            dict(name="TestC01Serverless", quick=dict(checks=700, timeout=600), thorough=dict(checks=16000, shards=8, timeout=3400)),
+            dict(name="TestC01ServerlessFull", quick=dict(checks=300, timeout=600), thorough=dict(checks=8000, shards=4, timeout=3400)),
+            dict(name="TestC01SSH", quick=dict(checks=200, timeout=600), thorough=dict(checks=6000, shards=4, timeout=3400)),
+            dict(name="TestC01SSHFull", quick=dict(checks=100, timeout=600), thorough=dict(checks=4000, shards=2, timeout=3400)),
         ]),
     "C12": dict(
         pkg="c12", level="exploration", bins=["dgrep", "dmap"], helpers=["vserver"],
@@ -87,8 +87,8 @@ CHECKS = {
         level_text="Generated tables in the three log formats and grammar-generated queries run through the real server-side aggregators (one per simulated server, several files, forced partial transmissions) and the real client-side re-aggregation and CSV writer, without transport; the result is compared with the single-partition run of the same code and, on tables where dtail's semantics are unambiguous, with an independent central evaluator (rows as a multiset, tolerance for float sums, any valid top-k under limit, any group value for last/len).",
         level_note="Transport and the client-chosen table regex are covered end to end by C06/C15 runs of the dmap binary. NaN/Inf tokens, the aggregate-message delimiter runes and ',' in values are outside the domain. Order direction (order = descending) is taken from the repository's own expected outputs.",
         tests=[
-            dict(name="TestC05Clean", quick=dict(checks=250, shards=8, timeout=900), thorough=dict(checks=2500, shards=12, timeout=3000)),
-            dict(name="TestC05Wide", quick=dict(checks=250, shards=8, timeout=900), thorough=dict(checks=2500, shards=4, timeout=3000)),
+            dict(name="TestC05Clean", quick=dict(checks=250, shards=8, timeout=900), thorough=dict(checks=12000, shards=11, timeout=3400)),
+            dict(name="TestC05Wide", quick=dict(checks=250, shards=8, timeout=900), thorough=dict(checks=12000, shards=5, timeout=3400)),
         ]),
     "C10": dict(
         pkg="c10", level="exploration",
@@ -105,9 +105,9 @@ CHECKS = {
         level_text="Generated authorized_keys texts (three key types, options, comments, blank and whitespace lines anywhere, CRLF, missing final newline) and every pairing of service users with passwords and job allow-lists are checked against the rule 'granted iff key listed / health password / job name of the right kind from an allowed address'; granted health sessions are sent read and map commands naming a planted secret, which must never come back. Key files are put in place the way tools do it (in place, by rename, keeping an old or the previous modification time), job names may exist in both job lists with different allow lists, and look-alike service user names are paired with valid credentials.",
         level_note="Only loopback addresses exist in the sandbox, so the deny side of AllowFrom is exercised with lists that do not contain loopback. 'Well-formed file' = every non-blank, non-comment line is a valid authorized_keys line.",
         tests=[
-            dict(name="TestC09KeyCallback", quick=dict(checks=5000, timeout=600), thorough=dict(checks=60000, shards=8, timeout=3000)),
-            dict(name="TestC09PasswordCallback", quick=dict(checks=8000, timeout=600), thorough=dict(checks=80000, shards=4, timeout=3000)),
-            dict(name="TestC09Handshake", quick=dict(checks=300, timeout=600), thorough=dict(checks=3000, shards=8, timeout=3000)),
+            dict(name="TestC09KeyCallback", quick=dict(checks=5000, timeout=600), thorough=dict(checks=250000, shards=6, timeout=3400)),
+            dict(name="TestC09PasswordCallback", quick=dict(checks=8000, timeout=600), thorough=dict(checks=300000, shards=4, timeout=3400)),
+            dict(name="TestC09Handshake", quick=dict(checks=300, timeout=600), thorough=dict(checks=12000, shards=6, timeout=3400)),
         ]),
     "C14": dict(
         pkg="c14", level="exploration", helpers=["vserver"],
@@ -131,7 +131,7 @@ CHECKS = {
         level_text="Up to six real server processes with distinct host labels each serve their own generated files (1 B to 70 KiB lines, up to 2000 lines; MaxLineLength 6000 on half of the servers so that long lines arrive as numbered pieces, the default elsewhere so that records span several transport reads) to one client; every line the client prints must be a well-formed log record or a REMOTE record whose content is exactly line n of the source its host and file labels name, with n running without gaps per source.",
         level_note="Relative speeds are varied through file sizes and line lengths only (schedules are sampled, not enumerated). Byte 0xAC is excluded from line content (open finding C01/delim-0xac). One glob per session, so the multi-command early shutdown (open finding of C02) is out of the picture.",
         tests=[
-            dict(name="TestC07Interleave", quick=dict(checks=80, shards=6, timeout=900), thorough=dict(checks=400, shards=12, timeout=3400)),
+            dict(name="TestC07Interleave", quick=dict(checks=80, shards=6, timeout=900), thorough=dict(checks=3000, shards=12, timeout=3400)),
         ]),
     "C17": dict(
         pkg="c17", level="exploration", bins=["dcat"], helpers=["vserver"],
